@@ -180,6 +180,30 @@ type world struct {
 	frames   map[string][][]byte
 	pkts     map[string][]byte
 	rbuf     []byte // the receiving transport's REUSABLE receive buffer: every frame arrives in it
+	ro       face.NDNLPLinkServiceOptions
+	rscope   defn.Scope
+}
+
+// arriveInitial hands a frame to a NEW face as its initial frame, the way the UDP listener does for
+// the first datagram of a new remote endpoint: LinkService.Run(recvBuf[:n]) - and the listener then
+// goes straight back to reading into the same buffer.  The face's goroutines end on their own (the
+// in-memory transport's receive loop returns at once), the face leaves the face table.
+func (w *world) arriveInitial(frame []byte) {
+	if len(w.rbuf) < len(frame) {
+		w.rbuf = make([]byte, len(frame)+defn.MaxNDNPacketSize)
+	}
+	n := copy(w.rbuf, frame)
+	calls = calls[:0]
+	l := face.MakeNDNLPLinkService(face.VerifNewTransport(defn.MaxNDNPacketSize, w.rscope), w.ro)
+	l.Run(w.rbuf[:n])
+	for i := range w.rbuf {
+		w.rbuf[i] = 0xAA
+	}
+	id := l.FaceID()
+	for i := 0; i < 20000 && face.FaceTable.Get(id) != nil; i++ {
+		time.Sleep(50 * time.Microsecond)
+	}
+	collect()
 }
 
 // arrive hands a frame to the receiving link service the way a transport does: in its reusable
@@ -320,6 +344,7 @@ func exec(op string) string {
 		ro := face.MakeNDNLPLinkServiceOptions()
 		ro.IsReassemblyEnabled = b01(f[3])
 		nw.rcv = face.MakeNDNLPLinkService(nw.rtx, ro)
+		nw.ro, nw.rscope = ro, scopeOf(f[10])
 		nw.rcv.SetFaceID(12)
 		w = nw
 		return "ok"
@@ -409,6 +434,26 @@ func exec(op string) string {
 			return "skip"
 		}
 		w.arrive(pk)
+		return rxOut()
+	case "rxbi": // ... BARE, as the first datagram of a new peer: the initial frame of a new face
+		if w == nil || len(f) != 2 {
+			return "skip"
+		}
+		pk, ok := w.pkts[f[1]]
+		if !ok {
+			return "skip"
+		}
+		w.arriveInitial(pk)
+		return rxOut()
+	case "rxi": // the only frame of a one-frame message arrives as the initial frame of a new face
+		if w == nil || len(f) != 2 {
+			return "skip"
+		}
+		fr, ok := w.frames[f[1]]
+		if !ok || len(fr) != 1 {
+			return "skip"
+		}
+		w.arriveInitial(fr[0])
 		return rxOut()
 	case "end":
 		if w == nil {
@@ -741,6 +786,16 @@ func gen(g *common.Gen) {
 		for ; bare > 0; bare-- {
 			g.Op("rxb %s", common.Pick(r, plans).id)
 			g.Stat("rx-bare")
+		}
+		// first datagram of a new UDP peer: the listener passes it to LinkService.Run as the initial
+		// frame of a new face and re-uses its buffer at once
+		if r.Chance(1, 3) {
+			g.Op("rxbi %s", common.Pick(r, plans).id)
+			g.Stat("rx-initial-bare")
+		}
+		if r.Chance(1, 3) {
+			g.Op("rxi %s", common.Pick(r, plans).id)
+			g.Stat("rx-initial-lp")
 		}
 		g.Op("end")
 	}
